@@ -4,7 +4,8 @@ from vlib.core import hx, unhx, opt_line, fhex, F_MULTI, F_LIST, F_NOCASE, F_TIT
 
 class D:
     """one option declaration"""
-    def __init__(self, name, typ, flags=0, default=None, sub=None, cbs='', simple=False, dparsed=None):
+    def __init__(self, name, typ, flags=0, default=None, sub=None, cbs='', simple=False, dparsed=None, comment=None):
+        self.comment = comment    # .comment set in the declaration itself (no CFG_* macro does it, a hand-written initialiser may)
         self.name = name
         self.typ = typ            # int float bool str ptr sec func
         self.flags = flags
@@ -25,12 +26,12 @@ class D:
     def to_json(self):
         return {'name': self.name, 'typ': self.typ, 'flags': self.flags, 'default': self.default,
                 'sub': None if self.sub is None else [s.to_json() for s in self.sub], 'cbs': self.cbs,
-                'simple': self.simple, 'dparsed': self.dparsed}
+                'simple': self.simple, 'dparsed': self.dparsed, 'comment': self.comment}
 
     @staticmethod
     def from_json(j):
         return D(j['name'], j['typ'], j['flags'], j['default'], None if j['sub'] is None else [D.from_json(s) for s in j['sub']],
-                 j['cbs'], j['simple'], j['dparsed'])
+                 j['cbs'], j['simple'], j['dparsed'], j.get('comment'))
 
 
 def render_value(typ, v, quote='"'):
@@ -63,7 +64,7 @@ def emit(decls, lines, counter):
     counter[0] += 1
     lines.append('schema %d' % sid)
     for i, d in enumerate(decls):
-        kw = dict(flags=d.flags, cbs=d.cbs or '.', sub=subs.get(i), simple=1 if d.simple else 0)
+        kw = dict(flags=d.flags, cbs=d.cbs or '.', sub=subs.get(i), simple=1 if d.simple else 0, comment=d.comment)
         if d.typ in ('int', 'float', 'bool', 'str') and not d.is_list:
             if d.typ == 'int':
                 kw['dnum'] = d.default or 0
